@@ -106,6 +106,10 @@ func (s *TCPServices) RemoveService(service string) {
 			item.defaultHost = nil
 			s.changed = true
 		}
+		if _, hasTLS := item.TLS[hostname]; hasTLS {
+			delete(item.TLS, hostname)
+			s.changed = true
+		}
 		if item.isEmpty() {
 			delete(s.items, port)
 			s.changed = true
